@@ -57,10 +57,10 @@ const char *shim_evbuffer_validate(struct evbuffer *buf)
 		}
 		if (chain->refcnt < 1) return "chain refcnt < 1";
 		total += chain->off;
-		if (chain->off) {
-			if (seen_empty_after_data) return "data chain after an empty chain";
-			last_with_data = chain;
-		} else if (last_with_data) seen_empty_after_data = 1;
+		/* empty chains between data chains are tolerated by every walker; what must hold is that
+		 * *last_with_datap is the last chain holding data (checked below) */
+		if (chain->off) last_with_data = chain;
+		else if (last_with_data) seen_empty_after_data = 1;
 		if (chain->next == NULL && buf->last != chain) return "last does not point at the final chain";
 	}
 	(void)prev;
